@@ -40,6 +40,7 @@ type Exec struct {
 	// limits: which kinds are choice points at all in this exploration
 	kinds   map[string]bool
 	noSched bool // scheduling is deterministic (always the first enabled thread), not a choice
+	quiet   int  // >0: inside Quiet: no choice of any kind is offered
 
 	// scheduler
 	threads []*thread
@@ -70,6 +71,9 @@ func Choose(n int, kind, site string) int {
 }
 
 func (x *Exec) choose(n int, kind, site string) int {
+	if x.quiet > 0 {
+		return 0
+	}
 	if x.noSched && (kind == KSched || kind == KSwitch) {
 		return 0
 	}
@@ -396,6 +400,19 @@ func Crash(what string) {
 	if t := x.cur; t != nil {
 		x.unwind(t)
 	}
+}
+
+// Quiet runs f with every choice taking its default and not being recorded
+// (scenario set-up inside a controlled execution).
+func Quiet(f func()) {
+	x := active
+	if x == nil {
+		f()
+		return
+	}
+	x.quiet++
+	defer func() { x.quiet-- }()
+	f()
 }
 
 // Yield is an explicit scheduling point.
